@@ -35,7 +35,9 @@ RULE = ("One run = one live object of one of the ten classes in general position
         "list arguments, compute_form_factor_amplitude, distance_to_surface, get_face_area, "
         "get_dihedral, to_json, to_hoomd, repr/str, save and coxeter.io.to_* on the simulated "
         "filesystem), with malformed arguments, I/O faults inside exports, solver faults inside "
-        "minimal_bounding_* and a different RNG seed for every repeat. Stratified prefix: run "
+        "minimal_bounding_* and a different RNG seed for every repeat; half of the runs start "
+        "with a hand-out prefix (getters returning arrays) and 15% interleave mutators, after "
+        "which the reference snapshot and the hand-out registry start afresh. Stratified prefix: run "
         "index i < sum(|alphabet(cls)|) fixes the first query (quick), i < sum(|alphabet|^2) the "
         "first ordered pair (thorough). After every step: observables (read from a deep copy) "
         "unchanged since the start, caller arrays bit-for-bit unchanged, every array handed out "
